@@ -132,6 +132,7 @@ macro_rules! format4_harness {
 }
 
 // @bound format 4 subtable with 2 segments and a 2-entry glyphIdArray (36 bytes); every start/end/idDelta/idRangeOffset/glyphIdArray value symbolic under the format's sortedness rule; ch any u32
+// @release
 format4_harness!(c06_format4_2seg, 2, 2);
 // @tier thorough
 // @bound format 4 subtable with 3 segments and a 4-entry glyphIdArray (48 bytes); ch any u32
@@ -261,6 +262,7 @@ fn c06_format10() {
 /// Format 10 enumeration: pairs are (start + k, glyph k); a table whose codes would
 /// run past u32::MAX is an error, not a panic.
 // @bound format 10 subtable with 3 entries, startCharCode any u32
+// @release
 #[kani::proof]
 #[kani::unwind(8)]
 fn c06_format10_mappings() {
@@ -340,6 +342,7 @@ macro_rules! format12_harness {
 }
 
 // @bound format 12 subtable with 2 sorted disjoint groups, all values symbolic (full u32); ch any u32
+// @release
 format12_harness!(c06_format12_2groups, 2);
 // @tier thorough
 // @bound format 12 subtable with 3 sorted disjoint groups; ch any u32
